@@ -158,8 +158,9 @@ func init() {
 					}
 				}()
 				r := h.NewRand(seed*1000 + uint64(gi))
+				own := 0
 				for k := 0; k < nops; k++ {
-					switch pickW(r, "exec", 10, "get", 3, "global", 2, "lookup", 2, "edit", 3, "parse", 1, "newtype", 1, "keep", 3) {
+					switch pickW(r, "exec", 10, "get", 3, "global", 2, "lookup", 2, "edit", 3, "parse", 1, "newtype", 1, "keep", 3, "ownglobal", 3) {
 					case "keep":
 						// a key and a value kept beyond their iteration, then more ranges over maps of the same Go
 						// type - here and, at the same time, in the other goroutines, each with data of its own:
@@ -185,6 +186,21 @@ func init() {
 					case "get":
 						if _, err := set.GetTemplate(names[r.Intn(len(names))]); err != nil {
 							report("concurrent GetTemplate failed: " + err.Error())
+						}
+					case "ownglobal":
+						// a global only this goroutine writes: what AddGlobal stored is there once it has returned,
+						// whatever the other goroutines add at the same time
+						own++
+						key := fmt.Sprintf("own%d", gi)
+						set.AddGlobal(key, own)
+						if v, ok := set.LookupGlobal(key); !ok || fmt.Sprint(v) != fmt.Sprint(own) {
+							report(fmt.Sprintf("AddGlobal(%s, %d) returned, LookupGlobal gives %v, %v", key, own, v, ok))
+						}
+						if t, err := set.Parse("/own.jet", "{{ "+key+" }}"); err == nil {
+							var buf bytes.Buffer
+							if err := t.Execute(&buf, nil, nil); err != nil || buf.String() != fmt.Sprint(own) {
+								report(fmt.Sprintf("after AddGlobal(%s, %d) returned, {{ %s }} renders %q, %v", key, own, key, buf.String(), err))
+							}
 						}
 					case "global":
 						if r.Chance(30) {
